@@ -11,6 +11,7 @@ import (
 	"context"
 	"fmt"
 	"net/netip"
+	"runtime"
 	"sort"
 	"sync"
 	"testing/synctest"
@@ -67,6 +68,7 @@ const (
 	OPartial   = 3 // success with fewer addresses than asked
 	OQuota     = 4 // EniPerInstanceLimitExceeded, nothing happened
 	OExhaust   = 5 // InvalidVSwitchId.IpNotEnough, nothing happened
+	OEarly     = 6 // not an answer: the cloud carries out the assign call now (metadata shows the addresses), the answer stays outstanding
 )
 
 func V4(id int) netip.Addr {
@@ -119,11 +121,16 @@ type cloudENI struct {
 	trunk  bool
 }
 
-type outcome struct{ code int }
+type outcome struct {
+	code  int
+	early []int // addresses the cloud assigned (and showed in its metadata) before the answer was released
+}
 
 type pending struct {
 	slot, kind int
 	done       chan outcome
+	early      func() []int // applies the call's effect to the cloud ahead of the answer (assign calls only)
+	earlyIDs   []int
 }
 
 type Config struct {
@@ -136,33 +143,35 @@ type Config struct {
 }
 
 type World struct {
-	mu       sync.Mutex
-	cfg      Config
-	t0       time.Time
-	block    [][]int // records of the current block
-	In       [][]int // all records (annotated input)
-	Out      []int   // snapshots
-	cloud    map[int]*cloudENI
-	nextAddr int
-	nextENI  int
-	pend     [][]*pending // per slot, FIFO
-	locals   []*eni.Local
-	nis      []*slotNI
-	Mgr      *eni.Manager
-	rids     map[*eni.LocalIPRequest]int
-	nextRid  int
-	cancels  map[int]context.CancelFunc
-	held     map[int][3]int // pod -> eni a4 a6 of its latest successful reply
-	addUID   map[int]int    // pod -> uid generation under which its allocation was acknowledged (set by the service harness)
-	raceDispose map[int]int // slot -> n of the Dispose that races with the next allocation attempt
-	inflight map[int]int    // pod -> requests without a reply yet
-	ctx      context.Context
-	cancel   context.CancelFunc
-	wg       sync.WaitGroup
-	bg       sync.WaitGroup
-	stopping bool
-	lastMs   int
-	extra    func() []int
+	mu          sync.Mutex
+	cfg         Config
+	t0          time.Time
+	block       [][]int // records of the current block
+	In          [][]int // all records (annotated input)
+	Out         []int   // snapshots
+	cloud       map[int]*cloudENI
+	nextAddr    int
+	nextENI     int
+	pend        [][]*pending // per slot, FIFO
+	locals      []*eni.Local
+	nis         []*slotNI
+	Mgr         *eni.Manager
+	rids        map[*eni.LocalIPRequest]int
+	nextRid     int
+	cancels     map[int]context.CancelFunc
+	held        map[int][3]int // pod -> eni a4 a6 of its latest successful reply
+	addUID      map[int]int    // pod -> uid generation under which its allocation was acknowledged (set by the service harness)
+	raceDispose map[int]int    // slot -> n of the Dispose that races with the next allocation attempt
+	inflight    map[int]int    // pod -> requests without a reply yet
+	ctx         context.Context
+	cancel      context.CancelFunc
+	wg          sync.WaitGroup
+	bg          sync.WaitGroup
+	stopping    bool
+	lastMs      int
+	extra       func() []int
+	loadGate    map[int]chan struct{} // slot -> a metadata read of this slot is held open until the channel is closed
+	loadEntered map[int]chan struct{}
 	// FailRelease: pods whose Release fails at the interface (fault injection for the GC's independence clause)
 	FailRelease map[int]bool
 }
@@ -196,13 +205,16 @@ type slotFactory struct {
 	slot int
 }
 
-func (f *slotFactory) wait(kind int, rec []int) outcome {
+func (f *slotFactory) wait(kind int, rec []int, early ...func() []int) outcome {
 	w := f.w
 	p := &pending{slot: f.slot, kind: kind, done: make(chan outcome, 1)}
+	if len(early) > 0 {
+		p.early = early[0]
+	}
 	w.mu.Lock()
 	if w.stopping {
 		w.mu.Unlock()
-		return outcome{OErrBefore}
+		return outcome{code: OErrBefore}
 	}
 	w.push(rec)
 	w.pend[f.slot] = append(w.pend[f.slot], p)
@@ -317,8 +329,24 @@ func b2i(b bool) int {
 }
 
 func (f *slotFactory) assign(kind int, eniID string, count int) ([]netip.Addr, error) {
-	o := f.wait(kind, []int{ECallBegin, f.slot, kind, count, 0, 0})
 	w := f.w
+	o := f.wait(kind, []int{ECallBegin, f.slot, kind, count, 0, 0}, func() []int { // called with w.mu held
+		e := w.cloud[eniNum(eniID)]
+		if e == nil {
+			return nil
+		}
+		var ids []int
+		for i := 0; i < count; i++ {
+			a := w.fresh()
+			ids = append(ids, a)
+			if kind == KAs4 {
+				e.v4[a] = true
+			} else {
+				e.v6[a] = true
+			}
+		}
+		return ids
+	})
 	w.mu.Lock()
 	defer w.mu.Unlock()
 	e := w.cloud[eniNum(eniID)]
@@ -335,6 +363,9 @@ func (f *slotFactory) assign(kind int, eniID string, count int) ([]netip.Addr, e
 		end(0, 0, 0, nil)
 		return nil, fmt.Errorf("injected: no such interface")
 	}
+	if o.early != nil && o.code != OOk {
+		o.code = OErrAfter // the effect is there already: the only failure left is a lost answer
+	}
 	switch o.code {
 	case OErrBefore:
 		end(0, 0, 0, nil)
@@ -347,12 +378,20 @@ func (f *slotFactory) assign(kind int, eniID string, count int) ([]netip.Addr, e
 		return nil, codeErr("InvalidVSwitchId.IpNotEnough")
 	}
 	n := count
-	if (o.code == OPartial || o.code == OErrAfter) && n > 1 {
+	if (o.code == OPartial || o.code == OErrAfter) && n > 1 && o.early == nil {
 		n--
 	}
 	var ids []int
 	var addrs []netip.Addr
-	for i := 0; i < n; i++ {
+	for _, a := range o.early { // the cloud did its part before the answer: these are the addresses it assigned
+		ids = append(ids, a)
+		if kind == KAs4 {
+			addrs = append(addrs, V4(a))
+		} else {
+			addrs = append(addrs, V6(a))
+		}
+	}
+	for i := 0; i < n && o.early == nil; i++ {
 		a := w.fresh()
 		ids = append(ids, a)
 		if kind == KAs4 {
@@ -460,6 +499,14 @@ func (f *slotFactory) LoadNetworkInterface(mac string) ([]netip.Addr, []netip.Ad
 	}
 	for _, a := range k6 {
 		r6 = append(r6, V6(a))
+	}
+	if g := w.loadGate[f.slot]; g != nil {
+		// the metadata server has answered (the snapshot above) but the answer is still on its way
+		close(w.loadEntered[f.slot])
+		delete(w.loadGate, f.slot)
+		w.mu.Unlock()
+		<-g
+		w.mu.Lock()
 	}
 	return r4, r6, nil
 }
@@ -703,7 +750,7 @@ func (w *World) Stop() {
 	}
 	w.cancel()
 	for _, p := range all {
-		p.done <- outcome{OErrBefore}
+		p.done <- outcome{code: OErrBefore, early: p.earlyIDs}
 	}
 	w.wg.Wait()
 	w.bg.Wait()
@@ -954,11 +1001,18 @@ func (w *World) Complete(slot, code int) {
 	var p *pending
 	if slot < len(w.pend) && len(w.pend[slot]) > 0 {
 		p = w.pend[slot][0]
-		w.pend[slot] = w.pend[slot][1:]
+		if code == OEarly {
+			if p.early != nil && p.earlyIDs == nil {
+				p.earlyIDs = p.early()
+			}
+			p = nil
+		} else {
+			w.pend[slot] = w.pend[slot][1:]
+		}
 	}
 	w.mu.Unlock()
 	if p != nil {
-		p.done <- outcome{code}
+		p.done <- outcome{code: code, early: p.earlyIDs}
 	}
 	w.quiesce()
 }
@@ -1017,7 +1071,11 @@ func (w *World) RaceDispose(slot, n int) {
 	w.quiesce()
 }
 
-func (w *World) MetaSync(slot int) {
+func (w *World) MetaSync(slot int, hold ...bool) {
+	if len(hold) > 0 && hold[0] && slot >= 1 && slot <= len(w.locals) {
+		w.metaSyncOverlapping(slot)
+		return
+	}
 	w.ev(RMetaSync, slot)
 	if slot >= 1 && slot <= len(w.locals) {
 		w.locals[slot-1].VerifSync()
@@ -1025,10 +1083,67 @@ func (w *World) MetaSync(slot int) {
 	w.quiesce()
 }
 
+// metaSyncOverlapping: the metadata read of the periodic sync is held open while the answer of the slot's outstanding
+// cloud call arrives (success); only then the metadata answer is delivered.  The read's snapshot is the older of the two.
+func (w *World) metaSyncOverlapping(slot int) {
+	// with an ordinary request waiting on this interface the end of the sync starts a race for the pool's lock between the
+	// woken request and the factory worker that brings the answer: both orders are legal and the records cannot tell them
+	// apart, so the overlap is only staged when nothing but pre-heat requests wait here
+	snap := w.locals[slot-1].VerifSnapshot()
+	for _, q := range [][]*eni.LocalIPRequest{snap.Alloc4, snap.Alloc6, snap.Dang4, snap.Dang6} {
+		for _, r := range q {
+			if !r.NoCache && !eni.VerifReqDone(r) {
+				w.MetaSync(slot)
+				return
+			}
+		}
+	}
+	w.ev(RMetaSync, slot, 1)
+	w.mu.Lock()
+	gate, entered := make(chan struct{}), make(chan struct{})
+	if w.loadGate == nil {
+		w.loadGate, w.loadEntered = map[int]chan struct{}{}, map[int]chan struct{}{}
+	}
+	w.loadGate[slot], w.loadEntered[slot] = gate, entered
+	w.mu.Unlock()
+	done := make(chan struct{})
+	go func() {
+		defer close(done)
+		w.locals[slot-1].VerifSync()
+	}()
+	select {
+	case <-entered:
+		w.mu.Lock()
+		var p *pending
+		if slot < len(w.pend) && len(w.pend[slot]) > 0 {
+			p = w.pend[slot][0]
+			w.pend[slot] = w.pend[slot][1:]
+			w.push([]int{RComplete, slot, OOk})
+		}
+		w.mu.Unlock()
+		if p != nil {
+			p.done <- outcome{code: OOk, early: p.earlyIDs}
+			// let the worker run as far as the pool's lock lets it (no synctest.Wait here: a goroutine blocked on a
+			// mutex is not durably blocked)
+			for i := 0; i < 3000; i++ {
+				runtime.Gosched()
+			}
+		}
+		close(gate)
+		<-done
+	case <-done: // the sync did not read the metadata (no interface in use)
+		w.mu.Lock()
+		delete(w.loadGate, slot)
+		delete(w.loadEntered, slot)
+		w.mu.Unlock()
+	}
+	w.quiesce()
+}
+
 // ---- hooks for the service-level harness (harness/svc) ----------------------------------------
 
-func (w *World) Ev(rec ...int) { w.ev(rec...) }
-func (w *World) Quiesce()      { w.quiesce() }
+func (w *World) Ev(rec ...int)        { w.ev(rec...) }
+func (w *World) Quiesce()             { w.quiesce() }
 func (w *World) Ctx() context.Context { return w.ctx }
 func (w *World) BG() *sync.WaitGroup  { return &w.bg }
 
@@ -1066,7 +1181,7 @@ func (w *World) Restart(afterCancel func(), podResources func() []daemon.PodReso
 	}
 	w.cancel()
 	for _, p := range all {
-		p.done <- outcome{OErrBefore}
+		p.done <- outcome{code: OErrBefore, early: p.earlyIDs}
 	}
 	if afterCancel != nil {
 		afterCancel()
